@@ -58,6 +58,13 @@ def corpus(v):
             calls.append(("parse_message std L%d fg%d" % (L, fg), lambda L=L, fg=fg: parse_message(text, validation_level=L, find_groups=fg).to_er7()))
         calls.append(("parse_message custom-ec L%d" % L, lambda L=L: parse_message(text2, validation_level=L).to_er7()))
         calls.append(("parse_message+validate L%d" % L, lambda L=L: vrep(parse_message(text, validation_level=L))))
+        # repeated groups (the parser opens further instances of a group)
+        if v >= "2.3.1":
+            oru = ("MSH|^~\\&|A|B|C|D|20200101||ORU^R01^ORU_R01|1|P|%s\rPID|1||12^^^X||DOE^JOHN\rOBR|1|||T^t\rOBX|1|ST|a||v\rOBX|2|ST|b||w\r"
+                   "OBR|2|||U^u\rOBX|1|ST|c||x\rOBX|2|ST|d||y" % v)
+            calls.append(("parse_message repeated groups L%d" % L, lambda L=L, oru=oru: parse_message(oru, validation_level=L).to_er7()))
+            calls.append(("parse_message repeated groups tree L%d" % L,
+                          lambda L=L, oru=oru: ",".join("%s%d" % (c.name, len(c.children)) for c in parse_message(oru, validation_level=L).children)))
         # a message type no structure is known for, written with its own delimiters
         text3 = text2.replace("ADT@A01@ADT_A01", "XYZ@Q99").replace("ADT@A01", "XYZ@Q99")
         calls.append(("parse_message unknown-type custom-ec L%d" % L, lambda L=L, text3=text3: parse_message(text3, validation_level=L).to_er7()))
@@ -124,12 +131,15 @@ def corpus(v):
                 nk1 = m.add_segment("NK1")
                 nk1.nk1_2 = "A%sB%sC" % (ec["COMPONENT"], ec["SUBCOMPONENT"])
                 m.pv1 = "PV1%s1%sI%sW%s1" % (ec["FIELD"], ec["FIELD"], ec["FIELD"], ec["COMPONENT"])
+                # ... and to children reached through elements that do not exist yet
+                m.pd1.pd1_3 = "ORG%sX%sY" % (ec["COMPONENT"], ec["SUBCOMPONENT"])
+                m.pv2.pv2_3.value = "R%sS" % ec["COMPONENT"]
                 return m.to_er7()
             calls.append(("assign text inside a message %s L%d" % (ecn, L), assign_inside))
         calls.append(("parse_segment overlong-invalid-date L%d" % L, lambda L=L: parse_segment("PID|1||||||" + long_bad, version=v, validation_level=L, encoding_chars=full(EC_STD)).to_er7(full(EC_STD))))
         calls.append(("parse_segment overlong-text L%d" % L, lambda L=L: parse_segment("PID|1||" + long_bad, version=v, validation_level=L, encoding_chars=full(EC_STD)).to_er7(full(EC_STD))))
         for dt, val in (("DT", "20200102"), ("DT", "nodate"), ("DT", long_bad), ("NM", "12.50"), ("NM", "x"), ("ST", long_bad),
-                        ("TM", "1201"), ("SI", "7"), ("ID", "Y"), ("FT", "a|b")):
+                        ("TM", "1201"), ("SI", "7"), ("ID", "Y"), ("FT", "a|b"), ("IS", "y" * 25), ("IS", "M"), ("ST", "x" * 199)):
             calls.append(("datatype_factory %s %s L%d" % (dt, val[:8], L), lambda dt=dt, val=val, L=L: datatype_factory(dt, val, v, L)))
 
         def comp(L=L):
